@@ -1144,7 +1144,12 @@ void XMLScanner::scanPI()
             {
                 // It must be followed by '>' to be a termination of the target
                 if (fReaderMgr.skippedChar(chCloseAngle))
+                {
+                    // A leading surrogate must not be left unpaired
+                    if (gotLeadingSurrogate)
+                        emitError(XMLErrs::Expected2ndSurrogateChar);
                     break;
+                }
             }
 
             // Check for correct surrogate pairs
